@@ -1,5 +1,5 @@
 (* C14 — what the correspondence check evaluates on every case. *)
-From Yv Require Export Common.Base C14.Model C14.Spec C14.Blocking.
+From Yv Require Export Common.Base C14.Model C14.Spec C14.Blocking C14.Guard.
 
 (* ------------------------------------------------------------------------ *)
 (* Stream A: system calls on one pipe, with a snapshot of the pipe after each
@@ -414,7 +414,36 @@ Definition run_read (bytes : list N) (a b : str) : verdict :=
   let (l2, _) := first_line rest1 in
   if str_eqb a l1 && str_eqb b l2 then 0%N else 16%N.
 
+(* ------------------------------------------------------------------------ *)
+(* Stream H: two or three holders of ONE open file description overlap inside
+   Concurrent::read / Concurrent::write (TemporaryNonBlockingGuard).  [h]: the
+   enter/leave steps the harness drove and the O_NONBLOCK flag it observed
+   after each; [fin]: what a plain blocking read/write on the inner system got
+   after the last holder had left (FinAgain = would-block, which is right only
+   when the description was O_NONBLOCK from the start); [want]/[got]: the bytes put into the pipe in
+   order / the bytes taken out in order (pieces). *)
+Inductive fres := FinOk | FinAgain | FinOther.
+
+Fixpoint bools_eqb (a b : list bool) : bool :=
+  match a, b with
+  | [], [] => true
+  | x :: a, y :: b => Bool.eqb x y && bools_eqb a b
+  | _, _ => false
+  end.
+
+Definition run_guard (f0 : bool) (h : list (gop * bool)) (fin : fres)
+    (want got : list (list N)) : verdict :=
+  if negb (guard_okb f0 0 h) then 17%N
+  else if negb (match fin with FinOk => true | FinAgain => f0 | FinOther => false end) then 18%N
+  else if negb (bytes_eqb (concat got) (concat want)) then 18%N
+  else
+    match gtrace (ginit f0) (map fst h) with
+    | None => 99%N
+    | Some t => if bools_eqb (map snd h) t then 0%N else 1%N
+    end.
+
 Inductive case :=
+  | CGuard (f0 : bool) (h : list (gop * bool)) (fin : fres) (want got : list (list N))
   | CRead (bytes : list N) (a b : str)
   | CBlock (c : cfg) (h : list (bop * bobs * snap))
   | CRaw (bytes : list N) (decoded value : str)
@@ -425,6 +454,7 @@ Inductive case :=
 
 Definition run_case (k : case) : verdict :=
   match k with
+  | CGuard f0 h fin want got => run_guard f0 h fin want got
   | CRead bytes a b => run_read bytes a b
   | CBlock c h => run_block c h
   | CRaw b d v => run_raw b d v
